@@ -21,7 +21,9 @@ sys.path.insert(0, HERE)
 
 TREE = os.path.abspath(os.environ.get("PYVC_TREE", "/repo"))
 REPLAYS = os.path.join(HERE, "replays")
-EVIDENCE = os.path.join(HERE, "evidence")
+# evidence/ holds what the registered commands found on /repo itself; development runs against scratch trees
+# (PYVC_TREE) must not overwrite it
+EVIDENCE = os.path.join(HERE, "evidence") if TREE == "/repo" else os.path.join(HERE, "scratch", "evidence")
 
 _ENG = None
 _PROTO = None
